@@ -61,11 +61,32 @@ func cameThrough(cond ssa.Value, pol bool) (*ssa.Phi, int, bool) {
 		break
 	}
 	bo, ok := cond.(*ssa.BinOp)
-	if !ok || (bo.Op != token.EQL && bo.Op != token.NEQ) || !isNilConst(bo.Y) {
+	if !ok || (bo.Op != token.EQL && bo.Op != token.NEQ) {
 		return nil, 0, false
 	}
 	ph, ok := bo.X.(*ssa.Phi)
 	if !ok {
+		return nil, 0, false
+	}
+	// integer sentinel: `φ != -1` where every other edge is the constant -1
+	if k, isK := constInt(bo.Y); isK {
+		if (bo.Op == token.NEQ) != pol {
+			return nil, 0, false // φ == k: several edges may carry k
+		}
+		cand, n := -1, 0
+		for i, e := range ph.Edges {
+			if ek, isEK := constInt(e); isEK && ek == k {
+				continue
+			}
+			cand = i
+			n++
+		}
+		if n != 1 {
+			return nil, 0, false
+		}
+		return ph, cand, true
+	}
+	if !isNilConst(bo.Y) {
 		return nil, 0, false
 	}
 	wantNil := (bo.Op == token.EQL) == pol
@@ -113,7 +134,7 @@ func resolveUnderGuards(v ssa.Value, at *ssa.BasicBlock) ssa.Value {
 		}
 		changed := false
 		for _, g := range GuardsAt(at) {
-			if ep, k, ok := cameThrough(g.Cond, g.Pol); ok && ep.Block() == ph.Block() && ep != ph && k < len(ph.Edges) {
+			if ep, k, ok := cameThrough(g.Cond, g.Pol); ok && ep.Block() == ph.Block() && k < len(ph.Edges) {
 				v = ph.Edges[k]
 				changed = true
 				break
